@@ -221,12 +221,26 @@ def frame_templates(jm, use_mbuff, update_data_ptr):
     args = [("ref", ("pv", key)), ("obj", "JITMEM", "&mut jit::JitMemory"), ("obj", "PROG", "&[u8]"),
             T.K(1, int(use_mbuff)), T.K(1, int(update_data_ptr)), ("obj", "HELPERS", "&HashMap")]
     outs = ev.run_fn(jm.fn, args, st) or []
+    # the per-instruction loop is the loop that contains the opcode match; any other loop the evaluator had to
+    # summarise (one whose trip count depends on the program) makes the frame unknown, not empty
+    main_line = None
+    try:
+        mnode = jm.lm.match.node
+        for n_ in walk(fn["thir"]["body"]):
+            if n_.get("k") == "loop" and any(x is mnode for x in walk(n_)):
+                main_line = n_.get("line")
+    except Exception:
+        main_line = None
     res = []
     for v, s in outs:
         pro, epi, seen_loop, pending = [], [], False, None
+        other_loops = []
         for e in s.effects:
             if e[0] == "loop":
-                seen_loop = True
+                if main_line is None or e[1] == main_line:
+                    seen_loop = True
+                else:
+                    other_loops.append(e[1])
             elif e[0] == "emit":
                 t = jm.canon(e[2])
                 tag = None
@@ -238,6 +252,6 @@ def frame_templates(jm, use_mbuff, update_data_ptr):
                 if isinstance(val, tuple) and val and val[0] == "struct" and val[1].endswith("Jump"):
                     pending = jm.canon(symex.sfield(val, "target_pc"))
         ok = isinstance(v, tuple) and v and v[0] == "struct" and v[2] == "Ok"
-        res.append({"conds": [jm.canon(c) for c in s.conds], "prologue": pro, "epilogue": epi, "ok": ok,
-                    "unrec": [u for u in s.unrec if "field write" not in u]})
+        res.append({"conds": [jm.canon(c) for c in s.conds], "prologue": pro, "epilogue": epi, "ok": ok and not other_loops,
+                    "unrec": [u for u in s.unrec if "field write" not in u] + ["a loop outside the per-instruction loop whose trip count depends on the program (%s)" % l for l in other_loops]})
     return res
